@@ -67,7 +67,7 @@ func matchAggregates(res *mk.Result, out *ref.Output) (msg string, legacyOnly bo
 		return fmt.Sprintf("%d columns returned, %d expected (%v vs %v)", len(res.Header), len(out.Header), res.Header, out.Header), false
 	}
 	for i := range out.Header {
-		if res.Header[i] != out.Header[i] {
+		if res.Header[i] != out.Header[i] && !(i < len(out.HeaderFree) && out.HeaderFree[i]) {
 			return fmt.Sprintf("column %d is named %q, expected %q", i, res.Header[i], out.Header[i]), false
 		}
 	}
